@@ -17,12 +17,15 @@ from . import common as C
 RULE = ("cases over Z (i64 and BigInt), Q (Ratio<i64>, Ratio<BigInt>), F2, F3, Z[H] (Poly<'H', BigInt>), equally often; "
         "complexes of 1..6 spaces built text-only as D_p = U_(p+1) E_p U_p^-1 (U random invertible with tracked inverse, "
         "0..3 elementary operations per dimension: from very sparse to dense; E_p partial diagonal with 0..100% unit entries "
-        "or a common non-unit factor), ranks 0..8 (quick) / 0..10 (thorough), d_deg = +1 and -1, rayon pools of 1, 2, 3, 4, "
+        "or a common non-unit factor), ranks 0..8 (quick) / 0..12 (thorough), d_deg = +1 and -1, rayon pools of 1, 2, 3, 4, "
         "8, 16 threads; kinds: 'red' = ChainReducer::reduce(c, true) (shallow then deep pass, default strategy), 'cpx' = "
         "ChainComplexBase::reduced (rank, Trans and d_matrix of every summand), 'scr' = ChainReducer::new + set_matrix "
         "(with_trans per key) + add_vec (0..2 tracked vectors per space) + a script of 1..6 operations among "
         "reduce_at_spec(i, Rows|Cols, One|AnyUnit|Weight(1.0)|Weight(2.5)), reduce_at(i, deep), reduce_all(deep) with an "
-        "ascending, descending or shuffled support. The implementation's result line starts with the pivot lists it used; "
+        "ascending, descending or shuffled support; 'bad' = malformed stream in script form (a matrix replaced by a random one "
+        "so that d d != 0, a matrix of inconsistent shape, a tracked vector of the wrong length: the assert! panics must be "
+        "mirrored by the model's None and the results must still agree; the checker is not applied). The implementation's "
+        "result line starts with the pivot lists it used; "
         "the model is run on them and compared exactly. A case is non-trivial when the implementation returned (no panic) "
         "and at least one reduction step used a non-empty pivot list; distinct = distinct case lines")
 ASSUME = ["the pivot search is an oracle in the theorems; the only assumption on its answers is the ghost flag (the permuted "
@@ -135,7 +138,7 @@ def correspondence(ctx, replay_cases=None):
     open(os.path.join(out, "model.txt"), "w").write("\n".join(model) + "\n")
     res["n"] = len(cases)
     seen, kinds = set(), {}
-    st = {"panics": 0, "dropped": 0, "checker_evaluated": 0, "checker_skipped": 0, "steps": 0, "pivots_max": 0,
+    st = {"panics": 0, "dropped": 0, "checker_evaluated": 0, "checker_skipped": 0, "steps": 0,
           "by_ring": {}, "by_threads": {}}
     for i, (c, a, b) in enumerate(zip(cases, impl, model)):
         t = c.split(" ", 4)
